@@ -486,6 +486,10 @@ def shared(ctx):
     core.import_rules(ctx, [c18.r1_gate_chain, c18.r2_reward_bound, c18.r5_speed_formula, c18.r6_reward_rounds_down, c18.r7_trusted_verifier], "X18")
     from rules.props import c06
     core.import_rules(ctx, [c06.r5_activation_table], "X06")          # the SYM subsidy is minted from TIP-909 on, split by TIP-909a
+    # the seeding of a built-in pool puts reserves into existence that nobody paid in: it happens once per pool (absent ⇒ created, present ⇒ kept).  A creation test that
+    # fires again for a pool that exists (emptied, or by any other criterion) mints its reserves again, block after block
+    from rules.props import c16
+    core.import_rules(ctx, [c16.r2_create_builtins], "X16")
 
 
 RULES = [r1_gate_coverage, r2_exemption_table, r3_equality, r4_input_sums, r5_issuance_confinement, r6_floor, r7a, r8_subsidy_peg, r9_totals_fit, r10_no_wraparound, shared]
